@@ -32,14 +32,14 @@ type Profile struct {
 	OneGenesisUnbond     bool // at most one genesis stake unbonding at a time (F6)
 	VaryGas              bool
 	ContractGasCap       uint64
-	Inject               bool // generate CheckTx/Query injections (C06, C19)
+	Inject               bool     // generate CheckTx/Query injections (C06, C19)
 	Alt                  *Profile // alternative profile used for PAlt percent of the cases
 	PAlt                 int
 	IsAlt                bool
-	InjectAfterOnly      bool // schedule injected calls only after EndBlock / after Commit (engines that serve them while drawing, C19)
-	GasFaults            bool // half of the deliberate faults are gas/price faults (C16)
-	BlockGasBoundary     bool // now and then a contract-path tx asks for exactly the block gas limit (or one more/less)
-	LiveInject           bool // only prepare fresh valid txs per block; the engine serves them as CheckTx while it drives the primary
+	InjectAfterOnly      bool   // schedule injected calls only after EndBlock / after Commit (engines that serve them while drawing, C19)
+	GasFaults            bool   // half of the deliberate faults are gas/price faults (C16)
+	BlockGasBoundary     bool   // now and then a contract-path tx asks for exactly the block gas limit (or one more/less)
+	LiveInject           bool   // only prepare fresh valid txs per block; the engine serves them as CheckTx while it drives the primary
 	NonceChaos           bool   // more gaps / stale nonces
 	GovFocus             string // option documents mostly change this parameter
 	TightMaxVals         bool   // validator-count limit close to the number of candidates
@@ -115,7 +115,7 @@ type GenSource struct {
 	all     []*Actor
 	sentOK  [][]byte // earlier delivered txs (for replay ops)
 	sentAll [][]byte
-	fresh   [][]byte // valid txs built against the state committed before the current block (never delivered)
+	fresh   [][]byte         // valid txs built against the state committed before the current block (never delivered)
 	offline map[string]int64 // validator address -> offline (not signing) up to and including this height
 	// hooks for engines that extend the schedule
 	OnEndBlock  func(w *World, b *Block)
